@@ -85,6 +85,9 @@ TPM_RESULT TPM2_IO_TpmEstablished_Reset(void)
 
 TPM_RESULT TPM2_IO_Hash_Start(void)
 {
+    if (!_rpc__Signal_IsPowerOn())
+        return TPM_FAIL;
+
     _TPM_Hash_Start();
 
     _rpc__Signal_SetTPMEstablished();
@@ -95,6 +98,9 @@ TPM_RESULT TPM2_IO_Hash_Start(void)
 TPM_RESULT TPM2_IO_Hash_Data(const unsigned char *data,
                              uint32_t data_length)
 {
+    if (!_rpc__Signal_IsPowerOn())
+        return TPM_FAIL;
+
     _TPM_Hash_Data(data_length, (unsigned char *)data);
 
     return TPM_SUCCESS;
@@ -102,6 +108,9 @@ TPM_RESULT TPM2_IO_Hash_Data(const unsigned char *data,
 
 TPM_RESULT TPM2_IO_Hash_End(void)
 {
+    if (!_rpc__Signal_IsPowerOn())
+        return TPM_FAIL;
+
     _TPM_Hash_End();
 
     return TPM_SUCCESS;
